@@ -153,13 +153,20 @@ def outputPrvkey (d : Int) (tree : Option Tree) : Except Err Int :=
 
 def numsSec : Bytes := NUMS_PREFIX :: NUMS_X
 
-/-- `_output_pubkey_and_internal_key`: (output key, parity, x-only internal key) -/
+/-- Python truthiness of the `internal_pubkey` argument as octets: `None` and `b""` are both "no key" -/
+def truthyKey : Option Bytes → Option Bytes
+  | some (b :: bs) => some (b :: bs)
+  | _ => none
+
+/-- `_output_pubkey_and_internal_key`: (output key, parity, x-only internal key).  `if not internal_pubkey and
+    not script_tree` / `if internal_pubkey … else <NUMS>`: an EMPTY key is no key (falls back to the NUMS point),
+    exactly like `None`. -/
 def outputPubkeyAndInternalKey (sec : Option Bytes) (tree : Option Tree) :
     Except Err (Bytes × Nat × Bytes) :=
-  match sec, tree with
+  match truthyKey sec, tree with
   | none, none => .error .missing
-  | _, _ =>
-    let s := sec.getD numsSec
+  | key, _ =>
+    let s := key.getD numsSec
     let h := match tree with | some t => root H t | none => []
     match tweakedPubkey o H s h with
     | .error e => .error e
@@ -200,7 +207,7 @@ def checkOutputPubkey (q script control : Bytes) : Except Err Bool := do
   let m ← lengthGate control.length
   let c0 := (control.headD 0).toNat
   let k := foldPath H (leafHash H (c0 &&& LEAF_MASK) script) (control.drop CONTROL_HEAD) m.toNat
-  let pBytes := (control.drop 1).take 32
+  let pBytes := (control.drop 1).take (CONTROL_HEAD - 1)
   let t ← tapTweak o H pBytes k
   match o.liftX (ofBE pBytes : Nat) with
   | none => .error .key
